@@ -42,7 +42,7 @@ CHECKS = {
    category="model_checking",
    text="Kernel level only: SAT-decided for every buffer content, bit offset 0..7 and (for copy_bits) every length/alignment: copy_bits, right_shift_1 and the product kernel place exactly the right bits and touch nothing else; for 8 type shapes (unequal sums with padding on either side, unit-heavy and nested products/sums, byte-boundary crossings) the padded width equals the definition, iter_padded yields exactly the value's bits, as_left/as_right/as_product answer by the tag and return parts of the right width at the right offset. The compact encoding, compact decoder and prune are NOT covered (their Vec worklists exhaust 62 GB under CBMC even for a 1-byte value).",
    design_ref="DESIGN.md §2 C10/C11",
-   note="trusted: Kani/CBMC; Tmr::sum/product hash-consing stub; precomputed types rebuilt without the thread-local; Arc::drop_slow leaks. Outside: compact codec, prune, from_padded_bits beyond tiny types, wide words/buffer/context types"),
+   note="trusted: Kani/CBMC; Tmr::sum/product hash-consing stub; precomputed types rebuilt without the thread-local; Arc::drop_slow leaks. Outside: compact codec, prune, from_padded_bits, wide words/buffer/context types"),
  "C11": dict(
    technique="bounded model checking of Value's PartialEq/Ord/Hash: Kani 0.68 -> CBMC 6.11 over pairs of values built from independent symbolic buffers and offsets; independent live-bit oracle",
    category="model_checking",
